@@ -25,6 +25,26 @@ def snapshots(execs, hists, cfgs):
     return recs, meta
 
 
+def capacity_histories():
+    """'numbers of connectors up to pin capacity': one shape carrying two or three exclusive pins of one class (every such subset of the
+    protocol's catalogue, among them two pins that differ only in their inside offset) and as many connectors on that class, then the
+    shape moved and resized.  Legal behaviours of Lifecycle.tla, written out instead of waited for."""
+    import itertools
+    EXCL1 = [(1, 0, 2, 0, 4, 1, 1), (1, 4, 2, 0, 8, 1, 1), (1, 2, 2, 1, 15, 1, 1), (1, 4, 2, 1, 8, 1, 1)]      # <<class, xq, yq, inside, dirs, excl, prop>>
+    targets = [(23, 12), (12, 1), (23, 1)]
+    out = []
+    for k in (2, 3):
+        for pins in itertools.combinations(EXCL1, k):
+            ops = [[1, 1, 6, 8, 14, 16]]
+            for p in pins:
+                ops.append([2, 1, p[0], p[1], p[2], p[6], p[3], p[4], p[5]])
+            for i in range(k):
+                ops.append([4, 21 + i, 1, 1, 1, 0, targets[i][0], targets[i][1]])
+            ops += [[13], [6, 1, 2, 0], [13], [7, 1, 8, 8, 18, 20], [13]]
+            out.append(ops)
+    return out
+
+
 def main(tier):
     ev = V.Evidence(PID, tier)
     vd = V.Verdict(PID, ev)
@@ -35,6 +55,7 @@ def main(tier):
     # histories rich in pins: the same protocol specification, longer histories
     hists, rg = LC.gen_histories(d, n * 3, 18 if quick else 20, V.seed())
     hists = [h for h in hists if any(o[0] == 2 for o in h) and any(o[0] == 13 for o in h)][:n]
+    hists = hists + capacity_histories()
     ev.add_tlc('history generation (simulation of Lifecycle)', rg)
     rnd = random.Random(V.seed())
     scen = os.path.join(d, 'scen.txt')
